@@ -26,10 +26,25 @@ IDX = ("i", "j", "k", "l")
 
 
 # ---- tagging values -----------------------------------------------------------------------------------------
+MASKED = "<masked>"
+
+
+def _unmask(v):
+    """Masked array -> nested lists with MASKED for masked entries (a stored None stays None)."""
+    m = np.ma.getmaskarray(v)
+    d = v.data
+    if v.ndim == 0:
+        return MASKED if bool(m[()]) else d[()]
+    return [(_unmask(np.ma.MaskedArray(d[i], mask=m[i])) if isinstance(d[i], np.ndarray) or v.ndim > 1
+             else (MASKED if bool(m[i]) else d[i])) for i in range(v.shape[0])]
+
+
 def fz(v) -> str:
     """Freeze a value to its canonical string."""
+    if v is np.ma.masked:
+        return MASKED
     if isinstance(v, np.ma.MaskedArray):
-        v = v.tolist()  # masked -> None
+        v = _unmask(v)
     if isinstance(v, np.ndarray):
         v = v.tolist()
     if isinstance(v, (list, tuple)):
@@ -104,7 +119,13 @@ def set_fail(spec: dict | None):
     _FAIL = spec
 
 
-def _body(fname: str, outputs: tuple, internal, kw: dict):
+def returns_none(tag: str, none_mod) -> bool:
+    """Deterministic choice of the calls whose result is None (a value like any other)."""
+    import zlib
+    return bool(none_mod) and zlib.crc32(tag.encode()) % none_mod == 0
+
+
+def _body(fname: str, outputs: tuple, internal, kw: dict, none_mod=None):
     s = f"{fname}(" + ",".join(f"{k}={fz(v)}" for k, v in sorted(kw.items())) + ")"
     if _LOG is not None:
         _LOG.append((fname, s))
@@ -126,7 +147,7 @@ def _body(fname: str, outputs: tuple, internal, kw: dict):
             return arr
         return tag
     if len(outputs) == 1:
-        return one(s)
+        return None if returns_none(s, none_mod) else one(s)
     return tuple(one(f"{s}.{o}") for o in outputs)
 
 
@@ -135,7 +156,7 @@ def make_callable(f: dict):
     params = list(f["params"])
     sig = ", ".join(params)
     kw = ", ".join(f"{p}={p}" for p in params)
-    src = f"def {f['name']}({sig}):\n    from rtc.progs import _body\n    return _body({f['name']!r}, {tuple(f['outputs'])!r}, {f.get('internal')!r}, dict({kw}))\n"
+    src = f"def {f['name']}({sig}):\n    from rtc.progs import _body\n    return _body({f['name']!r}, {tuple(f['outputs'])!r}, {f.get('internal')!r}, dict({kw}), {f.get('none_mod')!r})\n"
     ns: dict = {}
     exec(src, ns)  # noqa: S102
     fn = ns[f["name"]]
@@ -224,7 +245,7 @@ def oracle_body(f: dict, kw: dict):
         return tag
     outs = f["outputs"]
     if len(outs) == 1:
-        return s, {outs[0]: one(s)}
+        return s, {outs[0]: None if returns_none(s, f.get("none_mod")) else one(s)}
     return s, {o: one(f"{s}.{o}") for o in outs}
 
 
@@ -313,9 +334,12 @@ def _eval_func(f: dict, vals: dict, calls: list):
 
 
 def to_nested(v):
-    """Normalise a pipefunc result (ndarray / masked / list / scalar) to nested lists of str (None for masked)."""
+    """Normalise a pipefunc result (ndarray / masked / list / scalar) to nested lists (MASKED for masked entries, None
+    for a stored None)."""
+    if v is np.ma.masked:
+        return MASKED
     if isinstance(v, np.ma.MaskedArray):
-        v = v.tolist()
+        v = _unmask(v)
     if isinstance(v, np.ndarray):
         v = v.tolist()
     if isinstance(v, (list, tuple)):
@@ -325,10 +349,22 @@ def to_nested(v):
     return v
 
 
+def xr_nested(v):
+    """to_nested for values read from an xarray object: xarray represents None inside object arrays as NaN (its
+    missing-value convention, applied by xarray.DataArray itself), so NaN is read back as None."""
+    def fix(x):
+        if isinstance(x, list):
+            return [fix(y) for y in x]
+        if isinstance(x, float) and x != x:
+            return None
+        return x
+    return fix(to_nested(v))
+
+
 # ---- generator ---------------------------------------------------------------------------------------------------
 def gen_map_program(rng: random.Random, n_funcs: int = 2, max_rank: int = 2, allow_internal: bool = True,
                     allow_multi: bool = True, allow_nomapspec: bool = True, allow_generator: bool = True,
-                    sizes_pool=(1, 2, 3)) -> dict:
+                    sizes_pool=(1, 2, 3), allow_none: bool = True) -> dict:
     """Random valid map program.  Every array has canonical axis names; uses may replace a name by ':'."""
     sizes: dict[str, int] = {}
     pool = list(sizes_pool)
@@ -385,14 +421,15 @@ def gen_map_program(rng: random.Random, n_funcs: int = 2, max_rank: int = 2, all
             if mode < 0.12 and len(params) > 1:
                 continue  # unlisted: delivered whole
             use = tuple(a if (rng.random() < 0.8) else None for a in axes)
-            if all(u is None for u in use):
-                use = axes
+            if all(u is None for u in use) and rng.random() < 0.5:
+                use = axes  # (otherwise the array is handed over whole through a fully sliced key, e.g. x[:, :])
             spec_in.append((p, use))
             named += [u for u in use if u is not None and u not in named]
-        if not spec_in:
-            p = params[0]
-            spec_in.append((p, arrays[p]))
-            named = list(arrays[p])
+        if not spec_in or not named:
+            p = spec_in[0][0] if spec_in else params[0]
+            spec_in = [(q_, u_) for q_, u_ in spec_in if q_ != p]
+            spec_in.insert(0, (p, arrays[p]))
+            named = list(arrays[p]) + [u for _, us in spec_in[1:] for u in us if u is not None and u not in arrays[p]]
         oidx = list(named)
         rng.shuffle(oidx)
         internal = None
@@ -405,6 +442,8 @@ def gen_map_program(rng: random.Random, n_funcs: int = 2, max_rank: int = 2, all
                 internal = (d,)
         spec = {"inputs": spec_in, "outputs": [(o, tuple(oidx)) for o in outs]}
         funcs.append({"name": name, "params": params, "outputs": outs, "spec": spec, "internal": internal})
+        if allow_none and internal is None and n_out == 1 and rng.random() < 0.2:
+            funcs[-1]["none_mod"] = rng.choice((2, 3))  # some elements of this output are None (a value like any other)
         _via_map(funcs[-1], rng)
         for o in outs:
             arrays[o] = tuple(oidx)
@@ -431,10 +470,38 @@ def _via_map(f: dict, rng) -> None:
         f["internal_bare_int"] = rng.random() < 0.5
 
 
+def gen_internal_consumer_program(rng: random.Random) -> dict:
+    """A producer whose output has an internal axis at a random position among 1-2 mapped axes, and a consumer that reads
+    that output through a key mixing slices and names over internal *and* mapped axes (incl. fully sliced), next to a
+    second mapped input.  (Element order inside sliced blocks is what such consumers observe.)"""
+    n_ext = rng.choice((1, 1, 2))
+    ext = list(IDX[:n_ext])
+    sizes = {a: rng.choice((2, 3)) for a in ext}
+    ix = IDX[n_ext]
+    sizes[ix] = rng.choice((2, 3))
+    oidx = list(ext)
+    oidx.insert(rng.randint(0, len(oidx)), ix)
+    inputs = {"n": {"shape": tuple(sizes[a] for a in ext), "kind": "ndarray"}}
+    f0 = {"name": "f0", "params": ["n"], "outputs": ["x"], "internal": (sizes[ix],),
+          "spec": {"inputs": [("n", tuple(ext))], "outputs": [("x", tuple(oidx))]}}
+    _via_map(f0, rng)
+    use = tuple(a if rng.random() < 0.35 else None for a in oidx)
+    named = [u for u in use if u is not None]
+    kx = IDX[n_ext + 1]
+    sizes[kx] = rng.choice((1, 2, 3))
+    inputs["w"] = {"shape": (sizes[kx],), "kind": rng.choice(("ndarray", "list"))}
+    out_axes = named + [kx]
+    rng.shuffle(out_axes)
+    f1 = {"name": "f1", "params": ["x", "w"], "outputs": ["s"], "internal": None,
+          "spec": {"inputs": [("x", use), ("w", (kx,))], "outputs": [("s", tuple(out_axes))]}}
+    return {"funcs": [f0, f1], "inputs": inputs, "sizes": sizes}
+
+
 def describe(prog: dict) -> dict:
     return {"funcs": [{"name": f["name"], "params": f["params"], "outputs": f["outputs"],
                        "mapspec": ref.canonical_str(f["spec"]) if f.get("spec") else None,
                        "internal": f.get("internal"), "internal_via_map": f.get("internal_via_map", False),
                        "internal_bare_int": f.get("internal_bare_int", False), **({"defaults": f["defaults"]} if f.get("defaults") else {}),
-                       **({"bound": f["bound"]} if f.get("bound") else {})} for f in prog["funcs"]],
+                       **({"bound": f["bound"]} if f.get("bound") else {}),
+                       **({"none_mod": f["none_mod"]} if f.get("none_mod") else {})} for f in prog["funcs"]],
             "inputs": prog["inputs"]}
